@@ -49,6 +49,14 @@ REPLIES = [
     ("only_crlf", b"\r\n\r\n", False),
     ("oversized_200", b"HTTP/1.1 200 OK\r\nX-Pad: " + b"p" * 17000 + b"\r\n\r\n", False),
 ]
+def _padded_200(size):
+    head = b"HTTP/1.1 200 Connection established\r\nX-Pad: "
+    return head + b"p" * (size - len(head) - 4) + b"\r\n\r\n"
+
+
+# 200 answers whose header block is 16378..16390 bytes long: a tunnel up to 16384, too large beyond
+PADDED_SIZES = list(range(16378, 16391))
+REPLIES += [("200_padded_%d" % n, _padded_200(n), n <= 16384) for n in PADDED_SIZES]
 REPLY_BY_NAME = {n: (b, ok) for n, b, ok in REPLIES}
 
 
@@ -153,6 +161,18 @@ class C19(Prop):
                                                       "user": None, "password": None},
                                            "reply": name, "after": "eof", "seg": "whole", "fault": None,
                                            "earlier": {"reply": ename, "cut": cut, "end": end, "same": same}}
+        def limit_and_terminator():
+            # 200 answers around the 16 KiB limit, in two segments cut at each of the last positions of the block
+            for n in PADDED_SIZES:
+                for back in (0, 1, 2, 3, 4, 5, 7, 1024, 1025):
+                    for secure in (False, True):
+                        yield {"secure": secure, "host": "example.test", "port": None, "mapping": "both",
+                               "proxy": {"scheme": "http", "host": "proxy.test", "port": 3128, "user": None, "password": None},
+                               "proxy2": {"scheme": "http", "host": "squid.corp.example", "port": None, "user": None,
+                                          "password": None},
+                               "reply": "200_padded_%d" % n, "after": "eof", "seg": ["cuts", [n - back]] if back else "whole",
+                               "fault": None}
+
         def sends_while_connecting():
             for op in ("getaddrinfo", "connect", "recv", "wrap"):
                 for k in (0, 1):
@@ -170,6 +190,7 @@ class C19(Prop):
         return [Enumeration("every_cut_of_the_proxy_reply", every_cut, exhaustive=True),
                 Enumeration("every_reply_class", every_reply, exhaustive=True),
                 Enumeration("sends_from_another_thread_while_connecting", sends_while_connecting, exhaustive=True),
+                Enumeration("answer_at_the_size_limit_x_cut_in_terminator", limit_and_terminator, exhaustive=True),
                 Enumeration("after_an_earlier_attempt_through_the_proxy", after_earlier_attempt, exhaustive=True)]
 
     def run_case(self, case):
